@@ -338,6 +338,15 @@ func scnC11(rc *RunCtx) {
 	w.Close()
 }
 
+// withKeyID gives a generated certificate login with an empty key id a non-empty one.
+func withKeyID(m *SshdMsg) *SshdMsg {
+	if m.Login != nil && m.Login.Form == "cert" && m.Login.KeyID == "" {
+		m.Login.KeyID = "nonempty@example.com"
+		m.Msg = m.Login.Message()
+	}
+	return m
+}
+
 func asciiSkeleton(x string) string {
 	b := make([]byte, 0, len(x))
 	for i := 0; i < len(x); i++ {
@@ -369,8 +378,10 @@ func scnC11L3(rc *RunCtx) {
 	var hs []string
 	ms := 0
 	for i := 0; i < n; i++ {
-		m := GenSshdMsg(t, "", i+1)
-		nx := GenSshdMsg(t, "", i+50)
+		// (a certificate login with an empty key id is an invalid login for the audit processor,
+		// which stops the daemon by design: C15, C08)
+		m := withKeyID(GenSshdMsg(t, "", i+1))
+		nx := withKeyID(GenSshdMsg(t, "", i+50))
 		l, kind := corrupt(t, rc, m, nx, false)
 		if len(l) > 4000 {
 			l = l[:4000] + "\n" // keep the L3 run short; long lines are covered by the other family
@@ -405,6 +416,13 @@ func scnC11L3(rc *RunCtx) {
 		return
 	}
 	if p.Returned {
+		if p.RetErr != nil && strings.Contains(p.RetErr.Error(), "failed to validate remote user login") {
+			// a corrupted line that still reads as an accepted login whose PID or key id the audit
+			// processor rejects: that stop is by design (C15, C08), not a crash of the sshd side
+			rc.Sim.Count("c11.stopped_by_invalid_login")
+			rc.R.NonTrivial = false
+			return
+		}
 		rc.Fail("C11", "pipeline-stopped", "the daemon stopped with %v after corrupted sshd lines %v", p.RetErr, hs)
 		return
 	}
